@@ -157,8 +157,10 @@ theorem C05_bcSpec_tiny (arcs : Arcs) (directed normalized : Bool) (x : Nat) :
       have hh := tightPaths_head arcs _ x _ _ p (by rw [heq]; exact List.mem_cons_self ..)
       simp [hh]
 
-/-- What remains unproved for C05 (kept visible): on every store satisfying the coupling invariant, with hop counts or positive
-    weights, the model of `betweenness_centrality` equals the definition. -/
+/-- The full statement of C05 at model level, as first written (kept visible). Quantified over *arbitrary* `Store` records it
+    is false (`C05_model_eq_spec_unweighted_counterexample` in Props/C05Full.lean: a record with a duplicated traversal entry);
+    for every store reachable through the mutation API - every GraphSpecs record, every history - it is proved:
+    `C05_full_statement_reachable` (Props/C05Full.lean). -/
 def C05_full_statement : Prop :=
   ∀ (s : Store) (weighted normalized : Bool),
     (weighted = true → ∀ e ∈ s.allEdges, ∃ w, e.w = some w ∧ 0 < w) →
